@@ -193,6 +193,60 @@ fn e2e(line: &str) -> String {
     format!("{} => {}", items, rows.join(" "))
 }
 
+/// End to end under `--test`: which declared argument does each row of `recv::lossy` /
+/// `recv::strs` receive, in run order?  Case: `<attr> <rev> <bench>`.  Output in the format
+/// of the `sort` mode: `ok <declared positions in run order> | f64:... | names:<labels>`.
+fn e2erun(line: &str) -> String {
+    let t = hxlib::toks(line);
+    let bench = t[2];
+    let exe = std::env::current_exe().expect("exe").with_file_name("hx-sort-e2e");
+    let decl = std::process::Command::new(&exe).arg("describe-args").output().expect("spawn");
+    let decl = String::from_utf8(decl.stdout).expect("utf8");
+    let spec = decl.lines().find_map(|l| l.strip_prefix(&format!("{bench} "))).expect("bench in describe-args").to_string();
+    let flag = if t[1] == "1" { "--sortr" } else { "--sort" };
+    let out = std::process::Command::new(&exe)
+        .args(["--test", flag, t[0], &format!("recv::{bench}")])
+        .output()
+        .expect("spawn hx-sort-e2e");
+    if !out.status.success() {
+        panic!("child failed: {}", String::from_utf8_lossy(&out.stderr));
+    }
+    let err = String::from_utf8_lossy(&out.stderr).to_string();
+    let recv: Vec<u64> = err
+        .lines()
+        .filter_map(|l| l.strip_prefix(&format!("RECV {bench} ")))
+        .map(|v| v.trim().parse().expect("recv value"))
+        .collect();
+    let (labels, positions): (Vec<String>, Vec<usize>) = if bench == "lossy" {
+        let pairs: Vec<(u64, String)> = spec
+            .split(',')
+            .map(|p| {
+                let (v, l) = p.split_once('=').unwrap();
+                (v.parse().unwrap(), l.to_string())
+            })
+            .collect();
+        let pos = recv.iter().map(|v| pairs.iter().position(|(d, _)| d == v).expect("declared value")).collect();
+        (pairs.into_iter().map(|(_, l)| l).collect(), pos)
+    } else {
+        // slots of one slice: position = offset from the lowest address seen, in slots
+        let labels: Vec<String> = spec.split(',').map(|s| s.to_string()).collect();
+        let base = recv.iter().copied().min().unwrap_or(0);
+        let sz = std::mem::size_of::<String>() as u64;
+        (labels, recv.iter().map(|a| ((a - base) / sz) as usize).collect())
+    };
+    let perm = if positions.is_empty() {
+        "-".to_string()
+    } else {
+        positions.iter().map(|p| p.to_string()).collect::<Vec<_>>().join(",")
+    };
+    format!(
+        "ok {} | {} | names:{}",
+        perm,
+        f64_table(&labels),
+        labels.iter().map(|l| enc_name(l)).collect::<Vec<_>>().join(",")
+    )
+}
+
 fn dispatch(mode: &str, line: &str) -> String {
     match mode {
         "nat" => nat(line),
@@ -201,6 +255,7 @@ fn dispatch(mode: &str, line: &str) -> String {
         "f64" => f64_of(line),
         "tree" => tree::tree(line),
         "e2e" => e2e(line),
+        "e2erun" => e2erun(line),
         _ => panic!("unknown mode {mode}"),
     }
 }
